@@ -15,7 +15,7 @@ ASSUMPTIONS = [
     "on-disk variant: see C11 (VFS model); rotating variant: see C10",
 ]
 BOUNDS = {
-    "quick": "geometries (est,fpr) -> bits/hashes: (1,.9)->1/1, (1,.5)->2/1, (1,.3)->3/2, (2,.3)->6/2, (1,.05)->7/5, (3,.28)->8/2, (3,.25)->9/2, (3,.2)->11/3, (4,.25)->12/2, (5,.3)->13/2, (5,.22)->16/2, (10,.05)->63/4 (every residue of the bit count modulo 8); expanding filters with 1..3 sub-filters; histories of 3 adds",
+    "quick": "hash values in [0,2^64) and, for the geometries up to 16 bits, in [-2^64, 2^65]; geometries (est,fpr) -> bits/hashes: (1,.9)->1/1, (1,.5)->2/1, (1,.3)->3/2, (2,.3)->6/2, (1,.05)->7/5, (3,.28)->8/2, (3,.25)->9/2, (3,.2)->11/3, (4,.25)->12/2, (5,.3)->13/2, (5,.22)->16/2, (10,.05)->63/4 (every residue of the bit count modulo 8); expanding filters with 1..3 sub-filters; histories of 3 adds",
     "thorough": "adds (4,.06)->24/4, (7,.1)->34/3, (4,.01)->39/7, (20,.01)->192/7, (100,.001)->1438/10 for the core step; hash values in [-2^64, 2^65] for geometries up to 192 bits",
     "outside": "more than 1438 bits / 10 hashes, more than 3 sub-filters; actual md5/sha256/fnv values (covered as arbitrary integers; FNV itself is C18)",
 }
@@ -233,7 +233,7 @@ def jobs(tier):
     geos = QUICK if tier == "quick" else THOROUGH
     for est, fpr in geos:
         js.append({"h": "c01.step", "cfg": {"est": est, "fpr": fpr}, "opts": {"cost": est * 10}})
-        if tier == "thorough" and est < 100:       # 1438 bits with hash values in [-2^64, 2^65]: 'bits-exact' is `unknown` after 5 min
+        if (tier == "thorough" and est < 100) or (tier == "quick" and est <= 5):       # 1438 bits with hash values in [-2^64, 2^65]: 'bits-exact' is `unknown` after 5 min
             js.append({"h": "c01.step", "cfg": {"est": est, "fpr": fpr, "wide": True}, "opts": {"cost": est * 10}})
     for est, fpr in SMALL:
         js.append({"h": "c01.decide", "cfg": {"est": est, "fpr": fpr}})
